@@ -217,8 +217,12 @@ def pubWorldOp (j : Json) : Except String Res := do
     lines.all (fun l => !(l.toList.any fun c => c.toNat < 32 || c.toNat == 127)) &&
     target.length == 1 && !(target.any fun t => t.toList.contains '#' || (!worldHasEscapedHash && (t.splitOn "%23").length > 1))
   let canary := ((j.getObjVal? "canaryhits").toOption.bind (·.getNat?.toOption)).getD 0
+  -- the documents fetched once more after the items were built (nothing is written to a document)
+  let refetchOk := match j.getObjVal? "refetch_differs" with
+    | .ok (Json.arr a) => a.isEmpty
+    | _ => true
   pure { model := Json.mkObj fields,
-         preds := [("served_by_the_host_in_its_id", prov), ("listed_entries_are_genuine", genuine),
+         preds := [("served_by_the_host_in_its_id", prov), ("refetched_document_is_what_was_served", refetchOk), ("listed_entries_are_genuine", genuine),
                    ("authors_share_the_posts_host", authors), ("listing_is_the_pages_items_in_order", pagesOk),
                    ("requests_wellformed", wireOk), ("no_plaintext_connection", canary == 0)],
          nontrivial := kidsI.length ≥ 1 || (match impl.getObjVal? "parents" with | .ok (Json.arr a) => a.size ≥ 1 | _ => false) }
